@@ -35,6 +35,8 @@ SideOf(reg) == IF reg \in {"L", "fanL", "Ls"} THEN "l" ELSE "r"
 (* direction of variation with increasing x inside a rarefaction fan:   *)
 (* +1 increasing, -1 decreasing (pressure and density fall towards the  *)
 (* star state; velocity rises across both fans of an expansion)         *)
+(* regions in which the profile is monotone but may be flat (Taylor wave + constant state of Mader, from the CJ end) *)
+WeakDir == [mader |-> [p |-> -1, rho |-> -1, u |-> -1, c |-> -1]]
 FanDir == [fanL |-> [p |-> -1, rho |-> -1, u |-> 1],
            fanR |-> [p |-> 1,  rho |-> 1,  u |-> 1]]
 
@@ -45,15 +47,25 @@ CogShock == {"Cog19", "Cog20", "Cog21"}
 
 RiemannFams == {"RiemannIG", "RiemannGen"}
 (* families without a 1-D hydrodynamic scan row (burn times, heat conduction, elasticity): relation / field laws only *)
-PlainFams == {"EHEP", "Mader", "EPpiston", "Kenamond1", "Kenamond2", "Kenamond3", "DSDcyl", "Blake", "Rod1D", "Hutchens1"}
+PlainFams == { "Kenamond1", "Kenamond2", "Kenamond3", "DSDcyl", "Blake", "Rod1D", "Hutchens1"}
 G_Sedov == {<<"interior", "shock", "ambient">>, <<"vacuum", "cont", "interior">>}
-Families == {"Noh", "Noh2", "Noh2Cog", "Sedov"} \cup RiemannFams \cup PlainFams \cup CogNone \cup CogDiv \cup CogFull \cup CogShock
+G_Piston == {<<"plastic", "shock", "elastic">>, <<"elastic", "shock", "rest">>}
+(* escape of HE products: product regions are separated by characteristics (continuous); the only jump is the  *)
+(* detonation front into the unreacted explosive 0H                                                          *)
+R_EHEP == {"00", "I", "II", "III", "IV", "V", "0H", "0V", "None"}
+G_EHEP == {<<a, "cont", b>> : a \in R_EHEP \ {"0H", "00"}, b \in R_EHEP \ {"0H", "00"}}
+          \cup {<<a, "detonation", "0H">> : a \in {"I", "III", "IV", "V"}}
+          \cup {<<"00", "piston", b>> : b \in {"I", "II", "III", "IV", "V"}} \cup {<<"0H", "interface", "0V">>}
+Families == {"Noh", "Noh2", "Noh2Cog", "Sedov", "EPpiston", "EHEP", "Mader"} \cup RiemannFams \cup PlainFams \cup CogNone \cup CogDiv \cup CogFull \cup CogShock
 
 Cat == [f \in Families |->
   CASE f = "Noh"        -> Row("gamma", "euler",   "closed", {"post", "pre"}, G_PostPre, FALSE)
     [] f \in {"Noh2", "Noh2Cog"}
                         -> Row("gamma", "euler",   "closed", {"all"}, G_Smooth, FALSE)
     [] f = "Sedov"      -> RowF("gamma", "euler", "sedov", {"vacuum", "interior", "ambient"}, G_Sedov, TRUE, {"ambient"})
+    [] f = "EPpiston"   -> RowF("additive", "none", "closed", {"plastic", "elastic", "rest"}, G_Piston, FALSE, {"rest"})
+    [] f = "EHEP"       -> RowF("gamma", "euler", "ehep", R_EHEP, G_EHEP, TRUE, {})
+    [] f = "Mader"      -> RowF("cjisentrope", "none", "table", {"mader"}, G_Smooth, FALSE, {})
     [] f = "RiemannIG"  -> RowF("gamma2", "euler", "closed", R_Riemann, G_Riemann, FALSE, {"R"})
     [] f = "RiemannGen" -> RowF("gamma2", "euler", "table",  R_Riemann, G_Riemann, FALSE, {"R"})
     [] f \in PlainFams  -> Row("none",  "none",    IF f = "Mader" THEN "table" ELSE IF f \in {"Rod1D", "Hutchens1"} THEN "series" ELSE "closed", {"all"}, G_Smooth, FALSE)
